@@ -170,6 +170,10 @@ pub struct RefRun {
     pub stop: Stop,
     pub fin: RefM,
     pub steps: usize,
+    /// number of stdin lines consumed (prompts and input services)
+    pub stdin_used: usize,
+    /// number of prompts shown (single-step and INT 3)
+    pub prompts: usize,
 }
 
 /// bytes a print-mem command shows, or None if the range must be reported instead
@@ -197,6 +201,11 @@ pub struct RunOpts {
     /// true if the last line has no trailing newline (irrelevant for most services)
     pub interpreted: bool,
     pub horizon: usize,
+    /// INT 21h/0Ah encoding: false = plain, true = DOS style (see `run`)
+    pub dos_0a: bool,
+    /// single-stepping a REP-prefixed instruction: false = one prompt for the instruction,
+    /// true = one prompt before every iteration (what the 8086 trap flag does)
+    pub rep_prompt_per_iteration: bool,
 }
 
 pub fn initial_machine(f: &Flat) -> RefM {
@@ -207,6 +216,31 @@ pub fn initial_machine(f: &Flat) -> RefM {
         s.m.set(*a, *b);
     }
     s
+}
+
+fn fin_run(events: Vec<Ev>, trace: Vec<usize>, stop: Stop, fin: RefM, steps: usize, stdin_used: usize) -> RefRun {
+    let prompts = events.iter().filter(|e| matches!(e, Ev::StepPrompt { .. } | Ev::Int3 { .. })).count();
+    RefRun { events, trace, stop, fin, steps, stdin_used, prompts }
+}
+
+/// one iteration of a REP-prefixed string instruction; returns true if another iteration follows
+pub fn rep_iteration(r: Rep, op: StrOp, w: W, s: &mut RefM) -> bool {
+    if s.r.cx == 0 {
+        return false;
+    }
+    string_step(op, w, s);
+    s.r.cx = s.r.cx.wrapping_sub(1);
+    if s.r.cx == 0 {
+        return false;
+    }
+    if op.compares() {
+        if let Some(want) = r.want_zf() {
+            if (s.r.flag & ZF != 0) != want {
+                return false;
+            }
+        }
+    }
+    true
 }
 
 /// parse a prompt answer into a print kind (decimal constants only are certain; other radices are
@@ -261,13 +295,14 @@ pub fn parse_prompt_print(line: &str) -> Option<PrintKind> {
 /// Run the flattened program on the reference machine.
 pub fn run(f: &Flat, o: &RunOpts) -> RefRun {
     let mut s = initial_machine(f);
+    let n_stdin = o.stdin.len();
     let mut events = Vec::new();
     let mut trace = Vec::new();
     let mut stdin = o.stdin.iter();
     let horizon = if o.horizon == 0 { 100_000 } else { o.horizon };
     let mut idx = match f.labels.get("start") {
         Some(i) => *i,
-        None => return RefRun { events, trace, stop: Stop::NoStart, fin: s, steps: 0 },
+        None => return RefRun { events, trace, stop: Stop::NoStart, fin: s, steps: 0, stdin_used: 0, prompts: 0 },
     };
     let mut steps = 0;
     // prompt loop shared by single stepping and INT 3; returns Some(stop) if the run ends there
@@ -304,10 +339,10 @@ pub fn run(f: &Flat, o: &RunOpts) -> RefRun {
     }
     loop {
         if idx >= f.ins.len() {
-            return RefRun { events, trace, stop: Stop::EndOfProgram, fin: s, steps };
+            return fin_run(events, trace, Stop::EndOfProgram, s, steps, n_stdin - stdin.len());
         }
         if steps >= horizon {
-            return RefRun { events, trace, stop: Stop::Horizon, fin: s, steps };
+            return fin_run(events, trace, Stop::Horizon, s, steps, n_stdin - stdin.len());
         }
         steps += 1;
         let fi = &f.ins[idx];
@@ -315,19 +350,31 @@ pub fn run(f: &Flat, o: &RunOpts) -> RefRun {
         if o.interpreted || tf {
             events.push(Ev::StepPrompt { line: fi.line, tf });
             if let Some(st) = prompt(&s, &mut events, &mut stdin) {
-                return RefRun { events, trace, stop: st, fin: s, steps };
+                return fin_run(events, trace, st, s, steps, n_stdin - stdin.len());
             }
         }
         trace.push(idx);
+        if let Instr::Str(Some(r), op, w) = &fi.instr {
+            if o.rep_prompt_per_iteration && (o.interpreted || tf) {
+                while rep_iteration(*r, *op, *w, &mut s) {
+                    events.push(Ev::StepPrompt { line: fi.line, tf });
+                    if let Some(st) = prompt(&s, &mut events, &mut stdin) {
+                        return fin_run(events, trace, st, s, steps, n_stdin - stdin.len());
+                    }
+                }
+                idx += 1;
+                continue;
+            }
+        }
         let rs = step(&fi.instr, &s, &f.dc, idx);
         // DivErr leaves the machine as it was
         match rs.outcome {
             Outcome::DivErr => {
                 events.push(Ev::DivErr { line: fi.line });
-                return RefRun { events, trace, stop: Stop::DivErr, fin: s, steps };
+                return fin_run(events, trace, Stop::DivErr, s, steps, n_stdin - stdin.len());
             }
             Outcome::RetEmpty => {
-                return RefRun { events, trace, stop: Stop::RetEmpty, fin: s, steps };
+                return fin_run(events, trace, Stop::RetEmpty, s, steps, n_stdin - stdin.len());
             }
             _ => {}
         }
@@ -337,7 +384,7 @@ pub fn run(f: &Flat, o: &RunOpts) -> RefRun {
             Outcome::Jump(l) => idx = *f.labels.get(&l).expect("label"),
             Outcome::Call(n) => idx = *f.procs.get(&n).expect("proc"),
             Outcome::Ret(p) => idx = p,
-            Outcome::Halt => return RefRun { events, trace, stop: Stop::Halt, fin: s, steps },
+            Outcome::Halt => return fin_run(events, trace, Stop::Halt, s, steps, n_stdin - stdin.len()),
             Outcome::Print => {
                 if let Instr::Print(k) = &fi.instr {
                     let bytes = print_bytes(k, &s);
@@ -351,7 +398,7 @@ pub fn run(f: &Flat, o: &RunOpts) -> RefRun {
                     3 => {
                         events.push(Ev::Int3 { line: fi.line });
                         if let Some(st) = prompt(&s, &mut events, &mut stdin) {
-                            return RefRun { events, trace, stop: st, fin: s, steps };
+                            return fin_run(events, trace, st, s, steps, n_stdin - stdin.len());
                         }
                     }
                     0x10 => match ah {
@@ -369,7 +416,7 @@ pub fn run(f: &Flat, o: &RunOpts) -> RefRun {
                         }
                         _ => {
                             events.push(Ev::Unsupported { line: fi.line, int: n, ah });
-                            return RefRun { events, trace, stop: Stop::Unsupported, fin: s, steps };
+                            return fin_run(events, trace, Stop::Unsupported, s, steps, n_stdin - stdin.len());
                         }
                     },
                     0x21 => match ah {
@@ -386,12 +433,37 @@ pub fn run(f: &Flat, o: &RunOpts) -> RefRun {
                             s.r.ax = (s.r.ax & 0xFF00) | dl as u16;
                         }
                         0x0A => {
-                            // modelled by the C18 check itself (several admissible encodings)
-                            let _ = stdin.next();
+                            // buffered input: [capacity][count][bytes...] at DS:DX; the line terminator is
+                            // not part of the line. Two admissible encodings (RunOpts::dos_0a):
+                            // plain: count = min(len, capacity), exactly those bytes stored;
+                            // DOS:   the capacity includes a carriage return that is stored after the
+                            //        text but not counted
+                            let line: Vec<u8> = match stdin.next() {
+                                Some(l) => l.as_bytes().to_vec(),
+                                None => Vec::new(),
+                            };
+                            let at = |k: u32| phys(s.r.ds, s.r.dx.wrapping_add(k as u16));
+                            let cap = s.m.get(at(0)) as usize;
+                            if o.dos_0a {
+                                let n = line.len().min(cap.saturating_sub(1));
+                                s.m.set(at(1), n as u8);
+                                for (k, b) in line.iter().take(n).enumerate() {
+                                    s.m.set(at(2 + k as u32), *b);
+                                }
+                                if cap > 0 {
+                                    s.m.set(at(2 + n as u32), 0x0D);
+                                }
+                            } else {
+                                let n = line.len().min(cap);
+                                s.m.set(at(1), n as u8);
+                                for (k, b) in line.iter().take(n).enumerate() {
+                                    s.m.set(at(2 + k as u32), *b);
+                                }
+                            }
                         }
                         _ => {
                             events.push(Ev::Unsupported { line: fi.line, int: n, ah });
-                            return RefRun { events, trace, stop: Stop::Unsupported, fin: s, steps };
+                            return fin_run(events, trace, Stop::Unsupported, s, steps, n_stdin - stdin.len());
                         }
                     },
                     _ => {}
